@@ -147,6 +147,9 @@ class PerDocumentWriter(object):
                 text = vmatcher.id()
                 weight = vmatcher.weight()
                 valuestring = vmatcher.value()
+                if valuestring is None:
+                    # A format without posting values (e.g. Existence)
+                    valuestring = emptybytes
                 yield (text, weight, valuestring)
                 vmatcher.next()
         self.add_vector_items(fieldname, fieldobj, readitems())
